@@ -8,7 +8,10 @@ import (
 	"io"
 	"os"
 	"os/exec"
+	"path/filepath"
+	"runtime"
 	"strings"
+	"syscall"
 	"time"
 
 	"github.com/RoaringBitmap/roaring"
@@ -55,7 +58,9 @@ type OpenCase struct {
 	D       Damage `json:"damage"`
 	Preload bool   `json:"preload"`
 	Cache   bool   `json:"cache"`
-	Seq     string `json:"seq"` // open-open | open-close-close-open
+	Seq     string `json:"seq"`                    // open-open | open-close-close-open
+	Procs   int    `json:"procs,omitempty"`        // GOMAXPROCS while OpenIndex runs (0: unchanged)
+	Intact  bool   `json:"intact_first,omitempty"` // the intact file was opened and closed under the same path by this process before; the damage keeps size and mtime
 }
 
 // derive a damaged file from a valid index
@@ -72,6 +77,11 @@ func makeDamaged(valid, path string, d Damage) {
 		return
 	}
 	copyFile(valid, path)
+	damageInPlace(path, d)
+}
+
+// damageInPlace edits the bbolt file at path (same inode; bbolt rewrites pages in place, the size stays)
+func damageInPlace(path string, d Damage) {
 	db, err := bbolt.Open(path, 0644, boltOpts)
 	if err != nil {
 		infra("open for damage: %v", err)
@@ -145,8 +155,31 @@ func openClass(path string, preload, cache bool) (string, *updog.Index) {
 
 func runOpenCase(o *Oracle, valid string, c *OpenCase, rep *Report) {
 	path := scratch("damaged.updog")
-	makeDamaged(valid, path, c.D)
+	if c.Intact && c.D.Kind == "bolt" {
+		os.Remove(path)
+		copyFile(valid, path)
+		if idx, _, err := openIdx(path, c.Preload, -1); err == nil {
+			idx.Close()
+		} else {
+			infra("intact file does not open: %v", err)
+		}
+		st, _ := os.Stat(path)
+		damageInPlace(path, c.D)
+		if st != nil {
+			os.Chtimes(path, st.ModTime(), st.ModTime())
+		}
+		rep.Count("intact-first")
+	} else {
+		makeDamaged(valid, path, c.D)
+	}
 	defer os.Remove(path)
+	if c.Procs > 0 {
+		old := runtime.GOMAXPROCS(c.Procs)
+		procsPinned.Store(true)
+		defer procsPinned.Store(false)
+		defer runtime.GOMAXPROCS(old)
+		rep.Count(fmt.Sprintf("gomaxprocs=%d", c.Procs))
+	}
 	want := o.Ask(fmt.Sprintf("fs open %s preload=%v", c.D.String(), c.Preload))
 	rep.Eval(fmt.Sprintf("%v", *c), c.D.Kind != "bolt" || !c.D.Bucket || c.D.S != "good" || c.D.I != "good" || c.D.V != "good")
 	rep.Count("expect=" + want)
@@ -258,10 +291,101 @@ func runC15(rep *Report, r *Rng, tier string) {
 						rep.Sample(c)
 					}
 					runOpenCase(o, valid, c, rep)
+					if dm.Kind == "bolt" && ci == 0 {
+						// the same state reached after this process has opened the intact file under the same path, with
+						// size and modification time preserved; and under other GOMAXPROCS settings
+						c2 := *c
+						c2.Intact = true
+						c2.Procs = []int{0, 1, 3}[(len(dm.S)+len(dm.I)+len(dm.V))%3]
+						runOpenCase(o, valid, &c2, rep)
+					}
 				}
 			}
 		}
 		os.Remove(valid)
+	}
+	// a file with a few thousand values, one of the first undecodable: preloading under every GOMAXPROCS setting
+	{
+		d := &DataSpec{Seed: r.U64(), NRows: 3000, Cols: []ColSpec{{Name: hx("u"), NVals: 3000, Dist: "unique", Style: "ascii"}, {Name: hx("a"), NVals: 3, Dist: "random", Style: "ascii"}}}
+		valid := scratch("valid-many.updog")
+		os.Remove(valid)
+		if _, err := buildIndexFile("mem", d.Materialize(), valid); err != nil {
+			infra("build: %v", err)
+		}
+		for _, v := range []string{"bad", "half", "good"} {
+			for _, procs := range []int{1, 2, 3, 16} {
+				c := &OpenCase{D: Damage{Kind: "bolt", Bucket: true, S: "good", I: "good", V: v}, Preload: true, Seq: "open-open", Procs: procs}
+				runOpenCase(o, valid, c, rep)
+			}
+		}
+		os.Remove(valid)
+	}
+	// how the path is reached and who reaches it does not matter for a readable index: through a symbolic link, and
+	// (when the harness runs as root) as a user that can read the file but does not own it
+	{
+		pub, err := os.MkdirTemp("", "updog-verif-pub-")
+		if err != nil {
+			infra("mkdtemp: %v", err)
+		}
+		defer os.RemoveAll(pub)
+		os.Chmod(pub, 0755)
+		valid := filepath.Join(pub, "gen-0001.updog")
+		if _, err := buildIndexFile("mem", genDataSpecN(r, 50, false).Materialize(), valid); err != nil {
+			infra("build: %v", err)
+		}
+		os.Chmod(valid, 0644)
+		link := filepath.Join(pub, "current.updog")
+		os.Symlink("gen-0001.updog", link)
+		for _, pre := range []bool{false, true} {
+			got, idx := openClass(link, pre, false)
+			if idx != nil {
+				idx.Close()
+			}
+			rep.Eval(fmt.Sprintf("symlink-open-%v", pre), true)
+			if got != "ok" {
+				rep.Violate(Violation{Kind: "input", Signature: "C15:open-outcome", What: fmt.Sprintf("a valid index named through a symbolic link (preload=%v)", pre), Expected: "ok", Actual: got, Case: map[string]any{"via": "symlink", "preload": pre}})
+			}
+			if os.Geteuid() == 0 {
+				res := make(chan string, 1)
+				go func() {
+					runtime.LockOSThread() // never unlocked: the thread with the changed fsuid dies with this goroutine
+					if err := syscall.Setfsuid(65534); err != nil {
+						res <- "skip"
+						return
+					}
+					f, err := os.Open(valid)
+					if err != nil {
+						res <- "skip" // the file is not readable for that user on this system: nothing to learn
+						return
+					}
+					f.Close()
+					var opts []updog.IndexOption
+					if pre {
+						opts = append(opts, updog.WithPreloadedData())
+					}
+					idx, err := updog.OpenIndex(valid, opts...)
+					if err != nil {
+						res <- "err: " + err.Error()
+						return
+					}
+					idx.Close()
+					res <- "ok"
+				}()
+				var got string
+				select {
+				case got = <-res:
+				case <-time.After(20 * time.Second * watchdogScale):
+					got = "hang"
+				}
+				if got != "skip" {
+					rep.Eval(fmt.Sprintf("other-user-open-%v", pre), true)
+					rep.Count("opened-as-non-owner")
+					if got != "ok" {
+						rep.Violate(Violation{Kind: "input", Signature: "C15:open-outcome", What: fmt.Sprintf("a valid index that the opening user can read but does not own (preload=%v)", pre), Expected: "ok", Actual: got, Case: map[string]any{"via": "non-owner", "preload": pre}})
+					}
+				}
+			}
+		}
 	}
 	// options whose argument is nil cannot fail: the open succeeds, Close releases the file
 	{
@@ -506,6 +630,13 @@ func keyPresence(keys string) string {
 }
 
 func runC06(rep *Report, r *Rng, tier string) {
+	defer func() {
+		for _, big := range []bool{false, true} {
+			for _, sig := range []syscall.Signal{syscall.SIGTERM, syscall.SIGINT} {
+				terminatedCreate(rep, "C06", big, sig)
+			}
+		}
+	}()
 	rep.Rule = "every transaction-commit point (verifPoint hook) of Flush/WriteToBoltDatabase of the in-memory writer and of AddRow+Flush of the big writer, incl. the state before the first commit, for datasets on both sides of 1000/2000 distinct values and 1000/2000 rows: the output file is copied at each point; each copy must be rejected by OpenIndex or answer a probe battery (random queries + one OR-over-all-values group-by probe per column + schema) exactly like the complete file; both getters; non-trivial = strict prefix; distinct by (dataset, writer, point, getter)"
 	o := StartOracle()
 	defer o.Close()
@@ -763,6 +894,69 @@ func runClobberCase(valid, csvPath string, c *ClobberCase, rep *Report) {
 	}
 }
 
+func runSymlinkClobber(csvPath, kind, writer string, rep *Report) {
+	base := scratch("c16-links")
+	os.RemoveAll(base)
+	defer os.RemoveAll(base)
+	os.MkdirAll(filepath.Join(base, "store", "deep"), 0755)
+	os.MkdirAll(filepath.Join(base, "work"), 0755)
+	var path string           // the name handed to the writer
+	var mustNotExist []string // places a writer that resolves the name itself would create
+	var precious string       // an existing file the name really refers to ("" if none)
+	switch kind {
+	case "danglinglink":
+		path = filepath.Join(base, "work", "current.updog")
+		os.Symlink(filepath.Join(base, "store", "next.updog"), path) // target does not exist
+		mustNotExist = []string{filepath.Join(base, "store", "next.updog")}
+	default: // dotdot: work/latest -> store/deep, so work/latest/../out.updog IS store/out.updog
+		os.Symlink(filepath.Join(base, "store", "deep"), filepath.Join(base, "work", "latest"))
+		precious = filepath.Join(base, "store", "out.updog")
+		os.WriteFile(precious, []byte("precious user data\n"), 0644)
+		path = filepath.Join(base, "work", "latest") + "/../out.updog"
+		mustNotExist = []string{filepath.Join(base, "work", "out.updog")}
+	}
+	before := sha(precious)
+	var outcome string
+	if writer == "mem" {
+		outcome = watchdog(60*time.Second, func() string {
+			w := updog.NewIndexWriter(path)
+			w.AddRow(map[string]string{"a": "1"})
+			if err := w.Flush(); err != nil {
+				return "err"
+			}
+			return "ok"
+		})
+	} else {
+		_, err := runCreate(csvPath, path, writer == "create-big", 30*time.Second)
+		switch {
+		case err == nil:
+			outcome = "ok"
+		case strings.Contains(err.Error(), "timeout"):
+			outcome = "hang"
+		default:
+			outcome = "err"
+		}
+	}
+	c := map[string]any{"kind": kind, "writer": writer}
+	rep.Eval(fmt.Sprintf("symlink-%s-%s", kind, writer), true)
+	if outcome != "err" {
+		rep.Violate(Violation{Kind: "input", Signature: "C16:flush-on-existing-" + outcome, What: fmt.Sprintf("writer %s on an output name that already exists in the file system (%s)", writer, kind), Expected: "err", Actual: outcome, Case: c})
+	}
+	for _, p := range mustNotExist {
+		if _, err := os.Lstat(p); err == nil {
+			rep.Violate(Violation{Kind: "input", Signature: "C16:existing-file-modified", What: fmt.Sprintf("writer %s given an existing name (%s) wrote an index elsewhere: %s", writer, kind, p), Expected: "nothing created", Actual: "created " + p, Case: c})
+		}
+	}
+	if precious != "" && sha(precious) != before {
+		rep.Violate(Violation{Kind: "input", Signature: "C16:existing-file-modified", What: fmt.Sprintf("writer %s changed the existing file its output name refers to (%s)", writer, kind), Expected: before, Actual: sha(precious), Case: c})
+	}
+	if kind == "danglinglink" {
+		if fi, err := os.Lstat(path); err != nil || fi.Mode()&os.ModeSymlink == 0 {
+			rep.Violate(Violation{Kind: "input", Signature: "C16:existing-file-modified", What: fmt.Sprintf("writer %s replaced the symbolic link at its output path", writer), Expected: "link unchanged", Actual: fmt.Sprint(err), Case: c})
+		}
+	}
+}
+
 func runC16(rep *Report, r *Rng, tier string) {
 	rep.Rule = "pre-existing output files {empty, valid index, arbitrary bytes, read-only index} x writers {IndexWriter.Flush in-process, `updog create`, `updog create --big`}: Flush must fail and SHA-256 of the file must be unchanged; and read histories (open with every option set, random queries, GetSchema, Close, sql driver handles, gRPC server) on a valid index: SHA-256 and mtime unchanged; non-trivial = all; distinct by case"
 	o := StartOracle()
@@ -788,6 +982,14 @@ func runC16(rep *Report, r *Rng, tier string) {
 			}
 			runClobberCase(valid, csvPath, c, rep)
 			rep.Count("clobber-cases")
+		}
+	}
+	// the output path as the file system resolves it, not as a string: a dangling symbolic link is an existing entry
+	// (O_CREAT|O_EXCL refuses it), and "dir/link/../name" names a file in the directory the link points INTO
+	for _, kind := range []string{"danglinglink", "dotdot"} {
+		for _, w := range []string{"mem", "create", "create-big"} {
+			runSymlinkClobber(csvPath, kind, w, rep)
+			rep.Count("symlink-clobber-cases")
 		}
 	}
 	// a competitor creates the output path WHILE Flush is running: whenever the path does not exist at a commit point,
